@@ -7,6 +7,7 @@ structure CRec where
   st : Status
   stopread : Bool := false
   everReq : Bool := false
+  fault : String := ""        -- injected once during the next send/auth
 
 structure DState where
   cfg : Cfg := ⟨64, 48, 4, false, false, false, false, false, false, 20000, false⟩
@@ -50,7 +51,7 @@ def parseKV (s : DState) (tok : String) : Option DState :=
       else if k = "view" then some { s with cfg := { c with view := n != 0 } }
       else if k = "wait" then some { s with cfg := { c with wait := n } }
       else if k = "sdh" then some { s with cfg := { c with sdh := n != 0 } }
-      else if k = "wenc" then some s
+      else if k = "wenc" ∨ k = "http" then some s
       else none
   | _ => none
 
@@ -72,15 +73,7 @@ def afterRounds (cfg : Cfg) (rec : CRec) (st : Status) (t : Tot) : Status × Tot
     else (st, t)
   | _ => (st, t)
 
-def dstep (s : DState) (toks : List String) : DState × List String :=
-  match toks with
-  | "cfg" :: kvs =>
-    if s.started then (s, ["bad-op"]) else
-    match kvs.foldl (fun (acc : Option DState) tok => acc.bind (fun st => parseKV st tok)) (some s) with
-    | some s' => (s', ["ok"])
-    | none => (s, ["bad-op"])
-  | ["start"] => if s.started then (s, ["bad-op"]) else ({ s with started := true }, ["ok"])
-  | ["conn", id, pre] =>
+def doConn (s : DState) (id pre : String) : DState × List String :=
     if !s.started then (s, ["bad-op"]) else
     match id.toNat?, unhex? pre with
     | some id, some pre =>
@@ -93,10 +86,35 @@ def dstep (s : DState) (toks : List String) : DState × List String :=
         else if isRfbPrefix pre then run s.cfg {} (pre.length + 1) {} pre base
         else if isGetPrefix pre then (.unknown, base)
         else match pre with
-          | b :: _ => if b = 0x16 ∨ b = 0x80 then (.unknown, base) else (.closed, base)
+          | _ :: _ => (.closed, base)     -- not RFB, not GET (a TLS hello is refused too: no certificate)
           | [] => (.closed, base)
       (setConn s id { st := st }, [showR id st t])
     | _, _ => (s, ["bad-op"])
+
+def trickleOf (opts : List String) : Option Nat :=
+  opts.findSome? (fun o => if o.startsWith "trickle=" then (o.drop 8).toString.toNat? else none)
+
+def dstep (s : DState) (toks : List String) : DState × List String :=
+  match toks with
+  | "cfg" :: kvs =>
+    if s.started then (s, ["bad-op"]) else
+    match kvs.foldl (fun (acc : Option DState) tok => acc.bind (fun st => parseKV st tok)) (some s) with
+    | some s' => (s', ["ok"])
+    | none => (s, ["bad-op"])
+  | ["start"] => if s.started then (s, ["bad-op"]) else ({ s with started := true }, ["ok"])
+  | ["lconn", id, pre, "eof"] =>
+    -- the peer connects through the listening socket and hangs up before the server has written its
+    -- version string: accept succeeds, rfbNewClient fails (peek returns 0 / write fails)
+    if !s.started then (s, ["bad-op"]) else
+    match id.toNat?, unhex? pre with
+    | some id, some pre =>
+      if id == 0 || decide (id ≥ 16) then (s, ["bad-op"]) else
+      let base : Tot := { amax := sizeofClientRec, amaxAlt := sizeofClientRec }
+      let st : Status := if isGetPrefix pre ∨ (0 < pre.length ∧ pre.length < 4) then .unknown else .closed
+      (setConn s id { st := st }, [showR id st base])
+    | _, _ => (s, ["bad-op"])
+  | ["conn", id, pre] => doConn s id pre
+  | ["lconn", id, pre] => doConn s id pre
   | "send" :: id :: hexs :: opts =>
     if !s.started then (s, ["bad-op"]) else
     match id.toNat?, unhex? hexs with
@@ -110,9 +128,24 @@ def dstep (s : DState) (toks : List String) : DState × List String :=
         | .closed => (s, [showR id .closed {}])
         | .isOpen c =>
           let eof := opts.contains "eof"
-          let (st0, t0) := runSend s.cfg { eof := eof, stopread := rec.stopread } c bytes
+          let rec' := { rec with fault := "" }
+          if rec.fault = "rd_reset" ∧ !bytes.isEmpty then
+            -- the first read of the round fails with ECONNRESET: closed, nothing parsed
+            (setConn s id { rec' with st := .closed }, [showR id .closed { n := 1 }])
+          else
+          let (st0, t0) := runSend s.cfg { eof := eof, stopread := rec.stopread, selErr := rec.fault = "sel_err", wselErr := rec.fault = "wsel_err" } c bytes
           let (st, t) := afterRounds s.cfg rec st0 t0
-          (setConn s id { rec with st := st, everReq := rec.everReq || t.updReq }, [showR id st t])
+          match trickleOf opts with
+          | some d =>
+            -- one byte per segment: every byte but the first of each round costs one select of `d` ms
+            let guardClosed := match st with | .closed => t.rw == 0 | .isOpen _ => false | .unknown => true
+            if guardClosed || d ≥ clientWait s.cfg then
+              (setConn s id { rec' with st := st, everReq := rec.everReq || t.updReq }, [s!"r {id} ?"])
+            else
+              let t' := { t with vt := t.vt + d * (bytes.length - t.n) }
+              (setConn s id { rec' with st := st, everReq := rec.everReq || t.updReq }, [showR id st t'])
+          | none =>
+          (setConn s id { rec' with st := st, everReq := rec.everReq || t.updReq }, [showR id st t])
     | _, _ => (s, ["bad-op"])
   | ["auth", id, kind] =>
     if !s.started then (s, ["bad-op"]) else
@@ -153,6 +186,26 @@ def dstep (s : DState) (toks : List String) : DState × List String :=
         | .unknown => (s, [showR id .unknown {}])
         | .closed => (s, [showR id .closed {}])
         | .isOpen _ => (setConn s id { rec with st := .closed }, [showR id .closed { n := 1 }])
+  | ["fault", id, kind] =>
+    if !s.started then (s, ["bad-op"]) else
+    match id.toNat? with
+    | none => (s, ["bad-op"])
+    | some id =>
+      match findConn s id with
+      | none => (s, ["bad-op"])
+      | some rec =>
+        if id = 0 ∨ ¬ (["rd_eintr", "rd_reset", "sel_err", "wr_eintr", "wr_zero", "wsel_err", "wsel_eintr"].contains kind) then (s, ["bad-op"]) else
+        (setConn s id { rec with fault := kind }, ["ok"])
+  | ["lflood", n] =>
+    if !s.started then (s, ["bad-op"]) else
+    match n.toNat? with
+    | some k => if k ≥ 1 ∧ k ≤ 64 then (s, ["ok"]) else (s, ["bad-op"])
+    | none => (s, ["bad-op"])
+  | "http" :: req :: _ =>
+    if !s.started then (s, ["bad-op"]) else
+    match unhex? req with
+    | some _ => (s, ["ok"])
+    | none => (s, ["bad-op"])
   | ["stopread", id] =>
     if !s.started then (s, ["bad-op"]) else
     match id.toNat? with
@@ -173,7 +226,7 @@ def dstep (s : DState) (toks : List String) : DState × List String :=
     | none => (s, ["bad-op"])
   | "app" :: what :: args =>
     if !s.started then (s, ["bad-op"]) else
-    let good := (what = "copyrects" ∧ args.length = 1) ∨ (what = "cuttext" ∧ args.length = 1) ∨
+    let good := (what = "copyrects" ∧ args.length = 1) ∨ (what = "cuttext" ∧ args.length = 1) ∨ (what = "cututf8" ∧ args.length = 1) ∨
       (what = "bell" ∧ args.length = 0) ∨ (what = "copy" ∧ args.length = 6)
     if !good then (s, ["bad-op"]) else
     -- a server-initiated write blocks on a stop-reading peer: its fate is not modelled
